@@ -31,7 +31,9 @@ SOURCES = ['1', ' 1', '1 ', '\n1', '1\n', '\f1', '1\f', '[1, 2]', '{"a": [1]}', 
            '[]', '{}', 'k if False else []', 'acc = x => []; push(acc(0), 7); acc(0)', '"a  b" | len', '"a b" | len', '%l% | len', 'len("\t\t")', 'len("\t")',
            '[[], {}]', LONGLIST, 'pop(' + LONGLIST + ')', '{"t": [' + LONGLIST + ']}',
            # texts a cache may key / copy / hash differently than the parser reads them: lone surrogates, a tree 400 levels deep
-           '"\ud83d" + "x"', 'len("\udc00") # \udfff', LONGCHAIN]
+           '"\ud83d" + "x"', 'len("\udc00") # \udfff', LONGCHAIN,
+           # canonically equivalent, different texts (composed / decomposed, OHM SIGN / OMEGA)
+           'len("caf\u00e9")', 'len("cafe\u0301")', '"\u2126" == "\u03a9"', '"\u03a9" == "\u03a9"']
 WARM = ['1', '{"a": {"b": 1}}', 'map(l, v => v + k)', 'f = v => [v]; f(1)', '[[1], {"c": [2]}]']
 
 
@@ -274,14 +276,14 @@ def _src(act):
     return repr(act[1])[:22] if len(act) > 1 else ''
 
 
-DEEP_SOURCES = {'"\ud83d" + "x"', LONGCHAIN, LONGLIST, 'pop(' + LONGLIST + ')', '[]', '{}', 'k if False else []', '"a  b" | len', '"a b" | len', '[[], {}]', 'len([1, 2 3', 'x = 10\ny = 2\nx * y', 'k\n-1', 'k -1', '\n\nx = = 1', 'x = = 1', '1 +', ' 1', '{"a": {"b": 1}}', 'map(l, v => v + k)', 'f = v => [v]; f(1)', '[[1], {"c": [2]}]', '1', '\f1', 'x = {"a": {"b": [1]}}; x["a"]'}
+DEEP_SOURCES = {'len("caf\u00e9")', 'len("cafe\u0301")', '"\ud83d" + "x"', LONGCHAIN, LONGLIST, 'pop(' + LONGLIST + ')', '[]', '{}', 'k if False else []', '"a  b" | len', '"a b" | len', '[[], {}]', 'len([1, 2 3', 'x = 10\ny = 2\nx * y', 'k\n-1', 'k -1', '\n\nx = = 1', 'x = = 1', '1 +', ' 1', '{"a": {"b": 1}}', 'map(l, v => v + k)', 'f = v => [v]; f(1)', '[[1], {"c": [2]}]', '1', '\f1', 'x = {"a": {"b": [1]}}; x["a"]'}
 
 
 def deep_actions():
     return [a for a in actions() if a[0] in ('mutate-last', 'set-k', 'eval-ast') or (a[0] == 'eval' and a[1] in DEEP_SOURCES and a[3] in (None, 9))]
 
 
-CORE_SOURCES = {'"\ud83d" + "x"', LONGLIST, 'pop(' + LONGLIST + ')', '[]', '{}', 'k if False else []', '"a  b" | len', '"a b" | len', '{"a": {"b": 1}}', 'map(l, v => v + k)', 'len([1, 2 3', 'x = 10\ny = 2\nx * y', '\f1', '1', 'k\n-1', 'k -1'}
+CORE_SOURCES = {'len("caf\u00e9")', 'len("cafe\u0301")', '"\ud83d" + "x"', LONGLIST, 'pop(' + LONGLIST + ')', '[]', '{}', 'k if False else []', '"a  b" | len', '"a b" | len', '{"a": {"b": 1}}', 'map(l, v => v + k)', 'len([1, 2 3', 'x = 10\ny = 2\nx * y', '\f1', '1', 'k\n-1', 'k -1'}
 
 
 def core_actions():
